@@ -32,6 +32,9 @@ fn gen_int(rng: &mut Rng) -> (i64, Vec<u8>) {
     let mut t = Vec::new();
     if v >= 0 && rng.chance(1, 8) {
         t.push(b'+');
+    } else if v == 0 && rng.chance(1, 3) {
+        // zero written with a minus sign is still zero (for signed and unsigned targets alike)
+        t.push(b'-');
     }
     t.extend_from_slice(v.to_string().as_bytes());
     if rng.chance(1, 12) {
